@@ -84,6 +84,12 @@ class _FieldOfDressed:
         else:
             self.content = None
             setattr(container._xobject, self.name, value)
+            if isinstance(
+                getattr(container._XoStruct, self.name).ftype, Ref
+            ):
+                # the reference now designates something else (or nothing):
+                # forget the dressed object that was shared before
+                container.__dict__.pop("_dressed_" + self.name, None)
 
 
 def _copy_python_data(source, dest):
